@@ -186,6 +186,8 @@ class Report:
     def fail(self, key, msg, **detail):
         """key: stable semantic key (rule@function#discriminator)."""
         self.obligations += 1
+        if any(v["key"] == key for v in self.violations):
+            return          # same finding seen through another instantiation
         self.violations.append(dict(key=key, msg=msg, detail=detail))
 
     def count(self, name, n=1):
